@@ -230,8 +230,10 @@ namespace igris
                     break;
 
                 default:
-                    _line.newdata(c);
-                    retcode = READLINE_ECHOCHAR;
+                    // a character that does not fit is neither stored nor
+                    // echoed
+                    ret = _line.newdata(c);
+                    retcode = ret ? READLINE_ECHOCHAR : READLINE_OVERFLOW;
                     break;
                 }
                 break;
